@@ -175,6 +175,14 @@ func check(prop, tier, replay string) int {
 	if replay != "" {
 		// run the first stage's scenario once with -replay
 		st := stages[0]
+		// crash witnesses are replayed by the crash stage
+		if b, err := os.ReadFile(replay); err == nil && strings.Contains(string(b), `"crash": {`) {
+			for _, c := range stages {
+				if c.Scenario == "crashdrive" {
+					st = c
+				}
+			}
+		}
 		st.Children = 1
 		runStage(res, st, bins[st.Race], scratch, seed, tier, replay, 0)
 	} else {
